@@ -5,6 +5,6 @@
 int epoll_ctl(int epfd, int op, int fd, struct epoll_event *ev) {
     static int (*real)(int, int, int, struct epoll_event *); static int n;
     if (!real) real = dlsym(RTLD_NEXT, "epoll_ctl");
-    if (op == EPOLL_CTL_ADD && ++n == 2) { errno = ENOSPC; return -1; }   /* /proc/sys/fs/epoll/max_user_watches reached */
+    if (op == EPOLL_CTL_ADD && ++n == 1) { errno = ENOSPC; return -1; }   /* /proc/sys/fs/epoll/max_user_watches reached */
     return real(epfd, op, fd, ev);
 }
